@@ -7,6 +7,7 @@ from sa.astx import assigned_targets, call_attr, call_name, dotted, src, stateme
 from sa.domains import CTL, HEXDIG, TCHAR, fmt_set
 from sa.selftest import Mutant, Silent
 from sa.source import AnalysisError, class_assigns, methods
+from sa.props._lib_e_struct import Abstain, structural
 from sa.props._lib_e_machine import ClassV, Machine, Opaque, PyRaise, exc_name
 from sa.props._lib_e import (Raised, Unknown, Unsupported, assigns_self, call_in, calls_named, catches, check_hex_validators, handlers_of, http_interp, is_const,
                              is_falsy_return, make_env, no_exc, only_nodes_until_exit, ordered, resolve_local, risky_calls, self_attr, walk)
@@ -19,21 +20,21 @@ QD = Q + "_ChunkedTransferDecoder."
 PREFIX = "_dataReceived_"
 BAD = "_MalformedChunkedDataError"
 
-TECHNIQUE = 'AST interpretation of _ChunkedTransferDecoder on generated streams and splits vs a reference encoder'
+TECHNIQUE = 'state-table closure, provenance/exception-escape on inlined handlers, byte-exhaustive validators; bounded stream round trips'
 EXPLANATION = (
-    'The repository source is never imported or run: an AST interpreter (sa/props/_lib_e_machine.py) executes the syntax trees of web/http.py, http_headers'
-    '.py, _abnf.py, protocols/basic.py, policies.py and internet/protocol.py with model collaborators (transport, clock, network producer, body file) whose'
-    ' inputs are observable; unknown externals are opaque values that fork the path. Helper methods are simply executed, so extract/inline-helper, guard-cl'
-    'ause, temporaries, comprehension refactorings do not matter. Decided: (a) closure of the state table (every literal assigned to state, also through co'
-    'nditional expressions, has a handler and vice versa; dispatch prefix); (b) _hexint/_ishexdigits/toChunk/fromChunk evaluated over every byte value and '
-    'the regex pitfalls; (c) streams produced by a reference encoder written in the checker (extensions, upper-case and zero-padded sizes, trailers, binary'
-    ' data containing CRLF and terminator look-alikes, extra bytes) are delivered whole, at every two-way split and byte by byte: the decoder must deliver '
-    'exactly the body, call finishCallback once with exactly the extra bytes while in state FINISHED, not raise, and accept noMoreData; every proper prefix'
-    ' must not complete, not raise, and make noMoreData raise _DataLoss; malformed streams (non-hex sizes incl. bytes >= 0x80 in every position, control by'
-    'tes in extensions, missing CRLF after chunk data, size-line and trailer limits at L-1/L/L+1) must raise exactly _MalformedChunkedDataError whole and s'
-    'plit, and still-valid incomplete input must wait; decoder state at each call-out; non-termination on these small inputs is reported. (d) structurally:'
-    ' reject paths contain no strict decode/int/index on untrusted bytes. Not decided: all chunkings/splits of arbitrary length (bounded generated set), tr'
-    'ailer field syntax.'
+    'Structural and finite-exhaustive rules run on a normalised view (private helpers inlined at their call sites, temporaries followed by partial evaluati'
+    'on, guard clauses read through the CFG) and abstain with a note when a shape is not recognised; the bounded layer (source interpreted by an AST interp'
+    'reter with model collaborators, compared with an oracle) covers every clause a second time and is the only evidence where stated. STRUCTURAL: every li'
+    'teral assigned to state (also through conditional expressions) has a _dataReceived_<STATE> handler and vice versa, dispatch prefix, noMoreData raises '
+    '_DataLoss for every state of the table except FINISHED (states/); the stored chunk length is the _hexint result and ValueError is converted (provenanc'
+    'e/, escape/); every raise of the parsing states builds _MalformedChunkedDataError (helpers followed), reject paths contain no strict decode/int/index '
+    'on untrusted bytes (escape/, reject/reject-path-cannot-raise-otherwise); FINISHED is set before the single finishCallback site, the extra bytes are ta'
+    'ken before the buffer is cleared, FINISHED refuses data (mustpass/). FINITE-EXHAUSTIVE: _ishexdigits/_hexint over all 256 byte values in every positio'
+    'n class plus pitfalls, toChunk/fromChunk agreement, every byte value alone in a chunk extension accepted / rejected per RFC 9112 7.1.1 (size/, bytes/,'
+    ' roundtrip/toChunk-fromChunk, reject/fromChunk). BOUNDED ONLY: decoded bytes equal the original for every split of the generated streams, truncation r'
+    'eports data loss, malformed streams rejected whole and split, size-line and trailer limits at L-1/L/L+1, CR/LF split across deliveries, state at the c'
+    'all-outs (roundtrip/decoded-equals-original, dataloss/, reject/, size-line/, trailer/, split/, callout/) - the search-offset bookkeeping across delive'
+    'ries is a multi-call invariant with no crisp per-statement form. Not decided: trailer field syntax.'
 )
 ASSUMPTIONS = [
     'CPython semantics for bytearray/bytes/memoryview',
@@ -242,14 +243,23 @@ def _roundtrip(ctx, D):
 def _rejects(ctx, D, limit, maxtrailer):
     q = QD + "dataReceived"
     L = limit
-    fam = {"reject/size-not-hex": [], "reject/extension-bytes": [], "reject/chunk-not-followed-by-crlf": [], "size-line/limit": [], "trailer/limit": []}
+    fam = {"reject/size-not-hex": [], "bytes/extension-rejected": [], "reject/chunk-not-followed-by-crlf": [], "size-line/limit": [], "trailer/limit": []}
     sizes = [b"g", b"", b"0x5", b"+5", b"-5", b" 5", b"5 ", b"1_0", b"5\t", b"\t5", b"5\r", b"5\n", b"\n5", b"5.0", b"0g", b"\x00", b"5\x00", b"\xb2",
              b"\x80", b"5\xff", b"\xe95", b"5\xc3\xa95", b"ff\x80"]
     for sz in sizes:
         fam["reject/size-not-hex"] += [sz + b"\r\nhello\r\n0\r\n\r\n", sz + b";ext=1\r\nhello\r\n0\r\n\r\n", b"2\r\nab\r\n" + sz + b"\r\nhello\r\n0\r\n\r\n"]
     for v in sorted((CTL - {9, 10}) | {127}):
-        fam["reject/extension-bytes"].append(b"1;a" + bytes([v]) + b"b\r\nX\r\n0\r\n\r\n")
-    fam["reject/extension-bytes"] += [b"1;a\nb\r\nX\r\n0\r\n\r\n", b"0;a\x00\r\n\r\n", b"1;\x7f\r\nX\r\n0\r\n\r\n"]
+        fam["bytes/extension-rejected"].append(b"1;a" + bytes([v]) + b"b\r\nX\r\n0\r\n\r\n")
+    bad = None
+    for v in sorted(TCHAR | set(b';="\t ') | set(range(0x80, 0x100))):
+        stream = b"1;a" + bytes([v]) + b"b\r\nX\r\n0\r\n\r\n"
+        r = D.drive([stream])
+        if not (r["exc"] is None and r["data"] == [b"X"] and r["finish"] == [b""]) and bad is None:
+            bad = (v, r)
+    ctx.check(bad is None, "bytes/extension-accepted", q + " | every tchar, ';', '=', DQUOTE, SP, HTAB and obs-text byte in an extension",
+              f"extension byte 0x{bad[0]:02x} is not accepted: exception {bad[1]['exc']}" if bad else "",
+              detail="each of the bytes RFC 9112 7.1.1 allows in a chunk extension, alone in an extension (the decoder inspects extensions byte-wise)")
+    fam["bytes/extension-rejected"] += [b"1;a\nb\r\nX\r\n0\r\n\r\n", b"0;a\x00\r\n\r\n", b"1;\x7f\r\nX\r\n0\r\n\r\n"]
     fam["reject/chunk-not-followed-by-crlf"] = [b"5\r\nhelloXX0\r\n\r\n", b"5\r\nhello\rX", b"5\r\nhello\n\r", b"5\r\nhello\n\n0\r\n\r\n", b"5\r\nhello0\r\n\r\n",
                                                  b"5\r\nhello\r\r\n", b"1\r\na\r\n1\r\nbb\r\n0\r\n\r\n"]
     fam["size-line/limit"] = [b"1" * L + b"\r\nX", b"1;" + b"e" * (L + 5) + b"\r\nX", b"1" * (L + 1), b"\x80" * (L + 1), b"1" * (L - 2) + b"\xff1\r\nX"]
@@ -271,7 +281,6 @@ def _rejects(ctx, D, limit, maxtrailer):
                        "it must be rejected with _MalformedChunkedDataError (the only exception HTTPChannel converts to a 400) and never complete") if bad else "")
     # accepted at the limits, and waiting (not rejecting) while a line may still become valid
     ok_streams = [("size-line/limit", b"0" * (L - 2) + b"1\r\nX\r\n0\r\n\r\n", b"X"), ("size-line/limit", b"1;" + b"e" * (L - 3) + b"\r\nX\r\n0\r\n\r\n", b"X"),
-                  ("size-line/extension-bytes-accepted", b"1;" + bytes(sorted((TCHAR | set(b';="\t ') | set(range(0x80, 0x100))))) + b"\r\nX\r\n0\r\n\r\n", b"X"),
                   ("trailer/limit", b"0\r\n" + (b"X: " + b"v" * 1000 + b"\r\n") * (maxtrailer // 1000 - 2) + b"\r\n", b"")]
     for rule, stream, body in ok_streams:
         r = D.drive([stream])
@@ -298,6 +307,99 @@ def _structural(ctx):
         ctx.check(not ints, "size/decoded-by-hexint", QD + PREFIX + name, "a chunk size is decoded with int(x, 16), which accepts '0x', '+', '_' and surrounding whitespace") if name == "CHUNK_LENGTH" else None
 
 
+def _c22_structural(s, I):
+    """provenance / must-pass / exception-escape on the inlined state handlers; finite-exhaustive over the state table for noMoreData."""
+    from sa.props._lib_e import assigns_self as asg, calls_named as cn, catches as ca, handlers_of as ho, ordered as ordd, only_nodes_until_exit as onue, resolve_local as rl, walk as wk, make_env as me
+    cls = s.cls(HTTP, "_ChunkedTransferDecoder")
+    mod = s.mod(HTTP)
+    ms = methods(cls)
+    handlers = {n: s.func(HTTP, "_ChunkedTransferDecoder." + n) for n in ms if n.startswith(PREFIX)}
+    s.need(len(handlers) >= 5, "state handlers")
+
+    def builds_bad(f, e, depth=2) -> bool:
+        if isinstance(e, ast.Call):
+            nm = call_name(e) or ""
+            if nm == BAD:
+                return True
+            helper = ms.get(nm.split(".")[-1]) if nm.startswith("self.") else (mod.find(nm) if nm and "." not in nm else None)
+            if isinstance(helper, ast.FunctionDef) and depth > 0:
+                rets = [r for r in ast.walk(helper) if isinstance(r, ast.Return)]
+                return bool(rets) and all(r.value is not None and builds_bad(helper, r.value, depth - 1) for r in rets)
+        if isinstance(e, ast.Name) and e.id == BAD:
+            return True
+        return False
+    fin_sites = 0
+    for n, f in handlers.items():
+        g = s.cfg(f)
+        state = n[len(PREFIX):]
+        if state in PARSING:
+            for r in [x for x in ast.walk(f) if isinstance(x, ast.Raise) and x.exc is not None]:
+                e = r.exc
+                if builds_bad(f, e):
+                    s.ok("escape/raises-malformed", s.construct(QD + n, r), "raises _MalformedChunkedDataError")
+                elif isinstance(e, ast.Call) and isinstance(e.func, ast.Name) and e.func.id[:1].isupper():
+                    s.violation("escape/raises-malformed", s.construct(QD + n, r), f"malformed input raises {e.func.id} instead of _MalformedChunkedDataError (HTTPChannel only converts that one to a 400)")
+                else:
+                    raise Abstain("raise of an unrecognised form: " + src(r)[:60])
+        # the size is decoded by _hexint only, inside a ValueError -> _MalformedChunkedDataError conversion, and it is what is stored
+        hx = cn(g, "_hexint")
+        for h in hx:
+            hs = [x for x in ho(g, h) if ca(I, g.node(x).ast, "ValueError")]
+            wit = None
+            for x in hs:
+                wit = wit or onue(g, [x], lambda nd: nd.kind == "handler" or (nd.kind == "stmt" and isinstance(nd.ast, ast.Raise) and builds_bad(f, nd.ast.exc)))
+            s.check(bool(hs) and wit is None, "escape/size-error-converted", s.construct(QD + n, g.node(h).ast),
+                    "a non-hexadecimal size does not become _MalformedChunkedDataError (ValueError escapes dataReceived: no 400)", witness=g.describe(wit))
+        if hx:
+            for a in asg(g, "length"):
+                v = g.node(a).ast.value
+                vals = rl(f, v)
+                s.check(all(isinstance(x, ast.Call) and call_name(x) == "_hexint" for x in vals), "provenance/size-from-hexint", s.construct(QD + n, g.node(a).ast),
+                        "the chunk length stored is not the value decoded by _hexint (int(x, 16) accepts '0x', sign, '_', whitespace)")
+        # completion: FINISHED is set before the only finishCallback site; the extra bytes are taken before the buffer is cleared
+        fc = cn(g, "self.finishCallback")
+        fin_sites += len(fc)
+        for c in fc:
+            fs = asg(g, "state", lambda v: isinstance(v, ast.Constant) and v.value == "FINISHED")
+            w = ordd(g, fs, [c])
+            s.check(bool(fs) and w is None, "mustpass/finished-before-callback", s.construct(QD + n, g.node(c).ast),
+                    "finishCallback can run before the decoder is FINISHED (noMoreData called beneath it would report data loss)", witness=g.describe(w))
+            call = call_in(g.node(c).ast, "self.finishCallback")
+            a0 = call.args[0] if call.args else None
+            if isinstance(a0, ast.Name):
+                defs = [d for d in g.ids(lambda m: m.kind == "stmt" and isinstance(m.ast, ast.Assign) and any(isinstance(t, ast.Name) and t.id == a0.id for t in m.ast.targets))]
+                clears = [d for d in g.ids(lambda m: m.kind == "stmt" and isinstance(m.ast, ast.Delete) and "_buffer" in src(m.ast)) if g.dominates(d, c)]
+                for cl in clears:
+                    w = ordd(g, defs, [cl])
+                    s.check(bool(defs) and w is None, "mustpass/extra-taken-before-clear", s.construct(QD + n, g.node(cl).ast),
+                            "the buffer is cleared before the bytes following the terminator are taken: the next pipelined request is lost", witness=g.describe(w))
+        if state == "FINISHED":
+            s.check(g.path([g.entry], [g.exit], edge_ok=no_exc) is None, "mustpass/finished-refuses-data", QD + n, "data delivered after the last chunk is accepted")
+    s.check(fin_sites == 1, "mustpass/single-completion-site", QD + "finishCallback", f"finishCallback is invoked from {fin_sites} sites (completion must be signalled exactly once)")
+    f = s.func(HTTP, "_ChunkedTransferDecoder.noMoreData")
+    g = s.cfg(f)
+    raises = g.ids(lambda n: n.kind == "stmt" and isinstance(n.ast, ast.Raise))
+    s.need(raises, "raise in noMoreData")
+    states = sorted({h[len(PREFIX):] for h in handlers})
+    for st in states:
+        und = []
+        vis = wk(g, I, me({"self.state": st}), undecided=und)
+        want = st != "FINISHED"
+        s.vcheck(any(r in vis for r in raises) == want and (g.exit in vis) == (not want), und, "states/dataloss-unless-finished", f"{QD}noMoreData | state {st}",
+                 "the end of the stream before the last chunk is not reported" if want else "a completely decoded body is reported as data loss")
+    for r in raises:
+        s.check("_DataLoss" in src(g.node(r).ast), "states/dataloss-unless-finished", s.construct(QD + "noMoreData", g.node(r).ast), "noMoreData raises something other than _DataLoss")
+
+
+RULE_KINDS = {
+    "states/": "structural",                 # state-table closure (every assigned literal has a handler and vice versa); noMoreData over every state of the table
+    "escape/": "structural", "provenance/": "structural", "mustpass/": "structural", "reject/reject-path-cannot-raise-otherwise": "structural", "size/decoded-by-hexint": "structural",
+    "size/hexdigits-exact": "finite-exhaustive", "size/hexint": "finite-exhaustive", "bytes/": "finite-exhaustive", "roundtrip/toChunk-fromChunk": "finite-exhaustive", "reject/fromChunk": "finite-exhaustive",
+    "size-line/limit": "bounded", "size-line/": "bounded", "roundtrip/decoded-equals-original": "bounded", "dataloss/": "bounded", "callout/": "bounded", "finished/": "bounded",
+    "reject/": "bounded", "trailer/": "bounded", "split/": "bounded",
+}
+
+
 def check(ctx):
     I = http_interp(ctx)
     with ctx.section("state table"):
@@ -307,6 +409,7 @@ def check(ctx):
     limit = I.consts.get("maxChunkSizeLineLength")
     ctx.check(isinstance(limit, int) and limit >= 16, "size-line/limit", Q + "maxChunkSizeLineLength", f"maxChunkSizeLineLength is {limit!r}")
     L = limit if isinstance(limit, int) and limit >= 16 else 1024
+    structural(ctx, "C22 decoder provenance / exception escape / completion", lambda s: _c22_structural(s, I), "roundtrip/*, reject/*, dataloss/* (bounded)")
     with ctx.section("decoder behaviour"):
         D = _Decoder(ctx)
         probe = D.drive([b"0\r\n\r\n"], then_no_more=False)
